@@ -126,9 +126,6 @@ def sortFiles (fs : List FileRec) : List FileRec := fs.mergeSort fun a b => text
 def idxMax : Nat := indexTokenMax
 def wfPkgs (rows : List Row) (max : Nat) (ps : List Pkg) : Bool := ps.all (WFPkg b64 rows max)
 
-/-- what the APKINDEX format carries: everything but `replaces` (apk-tools writes `r:` only in the installed db) -/
-def indexProj (p : Pkg) : Pkg := { p with replaces := [] }
-
 /-- how Go's default list formatting reads back -/
 def mangleList (l : List Text) : List Text := splitRepeatedField (goList l)
 
